@@ -107,8 +107,8 @@ theorem denoteNs_faithful {rx fs ns o} (h : denoteNs rx fs ns = some o) :
       | some t => simp [hdr] at hd; subst hd; exact ⟨rfl, rfl⟩
   · cases h
 
-theorem denote_faithful {rx fs api} (h : denote rx fs = some api) : Faithful rx fs api := by
-  unfold denote at h
+theorem denote_faithful {rx fs api} (h : denoteCore rx fs = some api) : Faithful rx fs api := by
+  unfold denoteCore at h
   cases ho : optMapM (denoteNs rx fs) (nsNames fs []) with
   | none => simp [ho] at h
   | some outs =>
